@@ -1,6 +1,7 @@
 """Independent ordered JSON trees for the oracles (Python's json module, member order and
 number literals kept). Not derived from the model or the implementation."""
-import json
+import json, sys
+sys.setrecursionlimit(max(sys.getrecursionlimit(), 12000))   # trees nested a few hundred levels deep are walked recursively (several frames per level)
 
 class Num:
     __slots__ = ('lit',)
